@@ -64,13 +64,14 @@ type solDir struct {
 	values  int
 	already int
 	// withdrawal (the application releases its solicitation)
-	di          directive.Instance
-	ref         directive.Reference
-	withdrawn   bool
-	disposed    bool
-	disposedAt  time.Duration
-	settled     bool // disposed, and the link has been quiet since
-	counterpart bool // since this directive exists, the other side had a same-class solicitation that was not settled-withdrawn
+	di           directive.Instance
+	ref          directive.Reference
+	withdrawn    bool
+	disposed     bool
+	disposedAt   time.Duration
+	disposedStep int
+	settled      bool // disposed, and the link has been quiet since
+	counterpart  bool // since this directive exists, the other side had a same-class solicitation that was not settled-withdrawn
 }
 
 func (d *solDir) admits() bool {
@@ -115,6 +116,7 @@ func (d *solDir) HandleValueRemoved(directive.Instance, directive.AttachedValue)
 func (d *solDir) HandleInstanceDisposed(directive.Instance) {
 	d.disposed = true
 	d.disposedAt = d.w.s.Now()
+	d.disposedStep = d.w.s.Step
 }
 
 func init() {
@@ -124,7 +126,7 @@ func init() {
 		Cfg:        dsim.Config{MaxChaosSteps: 140, MaxStableSteps: 30000, Horizon: 20 * time.Second},
 		Real:       []string{"link/solicit/controller.Controller (link tracking, control stream exchange, hash computation, match evaluation, solicited stream opening and routing, resolveMatch)", "link/solicit hash functions and SolicitProtocol directive", "transport/controller.Controller, controllerbus, peer controller"},
 		Stub:       []string{"simlink pair between the two nodes; byte delivery chunked by the driver"},
-		FaultKinds: []string{"fault:colliding-concatenation", "fault:long-inputs-differing-in-tail", "fault:stranger-peer-constraint", "fault:other-transport-constraint", "fault:chunking", "fault:clock-jump", "fault:solicitation-withdrawn"},
+		FaultKinds: []string{"fault:colliding-concatenation", "fault:long-inputs-differing-in-tail", "fault:stranger-peer-constraint", "fault:other-transport-constraint", "fault:chunking", "fault:clock-jump", "fault:solicitation-withdrawn", "fault:solicited-after-other-side-withdrew"},
 	})
 }
 
@@ -205,6 +207,14 @@ func (w *solicitWorld) addDir(side int) {
 	}
 	d.peer = []string{"", "", "partner", "stranger"}[t.Draw(4, "peer-constraint")]
 	d.tpt = []string{"", "", "this", "other"}[t.Draw(4, "tpt-constraint")]
+	// sometimes: exactly what the other side solicited and has withdrawn since
+	for _, o := range w.dirs {
+		if o.side != side && o.settled && o.admits() && t.Bool(1, 2, "resolicit-withdrawn") {
+			d.proto, d.ctx, d.peer, d.tpt = o.proto, o.ctx, "", ""
+			s.Count("fault:solicited-after-other-side-withdrew")
+			break
+		}
+	}
 	for _, o := range w.dirs {
 		if o.side == side && o.proto == d.proto && o.ctx == d.ctx && o.peer == d.peer {
 			return // would be de-duplicated into the existing directive
@@ -249,6 +259,12 @@ func (w *solicitWorld) addDir(side int) {
 		panic(err)
 	}
 	d.di, d.ref = di, ref
+	// (a released reference's handler is not told about the disposal: ask the instance)
+	di.AddDisposeCallback(func() {
+		d.disposed = true
+		d.disposedAt = s.Now()
+		d.disposedStep = s.Step
+	})
 }
 
 func (w *solicitWorld) Actions(s *dsim.Sim, add func(dsim.Action)) {
@@ -266,7 +282,7 @@ func (w *solicitWorld) Actions(s *dsim.Sim, add func(dsim.Action)) {
 	}
 	// settle withdrawals: disposed, nothing in flight, and half a second of quiet
 	for _, d := range w.dirs {
-		if d.withdrawn && d.disposed && !d.settled && w.net.Idle() && s.ParkedCount() == 0 && s.Now()-d.disposedAt >= 500*time.Millisecond {
+		if d.withdrawn && d.disposed && !d.settled && w.net.Idle() && s.ParkedCount() == 0 && s.Step > d.disposedStep+1 {
 			d.settled = true
 			s.Logf("withdrawal of dir#%d settled", d.id)
 		}
@@ -338,6 +354,20 @@ func (w *solicitWorld) Final(s *dsim.Sim, stuck bool) *dsim.Violation {
 	sort.Strings(ks)
 	for _, k := range ks {
 		if c := classes[k]; !c[0] || !c[1] {
+			continue
+		}
+		// The property quantifies over solicitation values, not over histories of withdrawing
+		// and re-making them: a class (or a colliding one) that was withdrawn at some point
+		// is left out of the completeness demand (a stream matched for the withdrawn
+		// solicitation may have been consumed on one side only).
+		hist := false
+		for _, d := range w.dirs {
+			if d.withdrawn && d.proto+d.ctx == strings.ReplaceAll(k, "\x00", "") {
+				hist = true
+			}
+		}
+		if hist {
+			s.Count("probe:class-with-withdrawal-history")
 			continue
 		}
 		served := [2]bool{}
